@@ -42,6 +42,15 @@ def hostile_sources():
             s = src_from_clauses(cls, label="debug-on:%r:%d" % (h[:20], i))
             s.debug = True
             out.append(s)
+    # source encoding declarations (PEP 263) and UTF-7 escapes inside atoms, under each debug option alone:
+    # the first lines of the output then quote text of the source
+    for decl in ["coding=utf_7", "-*- coding: utf-7 -*-", "vim: set fileencoding=utf_16 :", "coding: latin-1", "coding:rot13"]:
+        for payload in ["a+ACc-) or query(+ACc-b", "x+AAo-y = 1", "caf\u00e9 +AOk-", "plain"]:
+            for dbg in ("generator", "parser", "filename", True):
+                s = src_from_clauses([clause(C("p1", A(decl))), clause(C("p1", A(payload))), clause(C("p1", C("f", A(decl), A(payload))))],
+                                     label="coding-declaration:%r:%r:%s" % (decl, payload[:12], dbg))
+                s.debug = dbg
+                out.append(s)
     return out
 
 
